@@ -111,6 +111,16 @@ func MakeBidToBuy1SatOrdinal(ctx context.Context, mba *MakeBidArgs) (*bt.Tx, err
 		return nil, err
 	}
 
+	// Change adds nothing when what is left does not cover the fee:
+	// refuse rather than return a transaction that underpays.
+	enough, err := tx.EstimateIsFeePaidEnough(mba.FQ)
+	if err != nil {
+		return nil, err
+	}
+	if !enough {
+		return nil, bt.ErrInsufficientFunds
+	}
+
 	//nolint: dupl // TODO: are 2 dummies useful or to be removed?
 	for i, u := range mba.BidderUTXOs {
 		// skip 2nd input (ordinals input)
